@@ -19,7 +19,8 @@ for f in sorted(glob.glob(os.path.join(V, "seeded", "*", "meta.json"))):
                 break
         e = f" (first {v['earlier_verdict'].lower()}, caught after the check was strengthened)" if v.get("earlier_verdict") and v["earlier_verdict"] != v["verdict"] else ""
         verdicts.append(f"{c}: {v['verdict'].lower()}{clause}{e}")
-    rows.append(f"| `seeded/{name}` | {short(m.get('summary'), 260)} | {short(m.get('needs'), 200)} | {'; '.join(verdicts)} |")
+    note = f" **Note:** {short(m['note'], 600)}" if m.get("note") else ""
+    rows.append(f"| `seeded/{name}` | {short(m.get('summary'), 260)} | {short(m.get('needs'), 200)} | {'; '.join(verdicts)}{note} |")
 p = os.path.join(V, "DESIGN.md")
 s = open(p).read()
 block = "<!-- SEEDED-TABLE-BEGIN -->\n" + "\n".join(rows) + "\n<!-- SEEDED-TABLE-END -->"
